@@ -140,7 +140,7 @@ impl Sut {
             }
             s => {
                 let n: u8 = s[1..].parse().expect("subnet token s<N>");
-                b.ip4(std::net::Ipv4Addr::new(10, 0, n, (k % 250) as u8 + 1));
+                b.ip4(std::net::Ipv4Addr::new(10, 0, n, ((k * 37) % 250) as u8 + 1)); // hosts spread over the whole /24 (both /25 halves)
             }
         }
         let e = b.build(&self.signer).unwrap();
